@@ -15,7 +15,9 @@ RULE = (
     "case = operation sequence on one host's file system, issued through the request tree and through agent actions' "
     "form_request (create/delete/restore/scan/repair/corrupt/access on files and folders over a pool of 2 folder and 3 file "
     "names, plus ticks); random sequences to depth 40 from Hypothesis, and all sequences to a fixed depth over a "
-    "reduced alphabet. Non-trivial = the sequence contains delete->restore on one name or create->create on one name; "
+    "reduced alphabet, plus 'focused' sequences that keep hitting one folder and 1-2 file names with ~25% ticks so that "
+    "timed folder scans/restores complete while other operations interleave. Non-trivial = the sequence contains "
+    "delete->restore on one name or create->create on one name; "
     "distinct by hash of the op list."
 )
 ASSUMPTIONS = [
@@ -333,6 +335,40 @@ def case_strategy(max_len):
     return st.fixed_dictionaries({"ops": st.lists(op_strategy(), min_size=1, max_size=max_len)})
 
 
+@st.composite
+def focused_case(draw, max_len):
+    """Sequences that keep hitting ONE folder and ONE or two file names, with enough ticks for the timed folder
+    operations (scan / restore, 3 ticks by default) to complete while other operations are interleaved."""
+    fo = draw(st.sampled_from(FOLDERS))
+    fis = draw(st.lists(st.sampled_from(FILES), min_size=1, max_size=2, unique=True))
+    fi = st.sampled_from(fis)
+
+    def mk(t):
+        k, f, front, verb = t
+        if k <= 3:
+            return ["tick"]
+        if k <= 6:
+            return ["create_file", fo, f, ["action", "action_force", "req_true", "req_false"][front % 4]]
+        if k <= 8:
+            return ["delete_file", fo, f, ["action", "folder"][front % 2]]
+        if k == 9:
+            return ["restore_file", fo, f, ["action", "fs"][front % 2]]
+        if k == 10:
+            return ["delete_folder", fo]
+        if k == 11:
+            return ["restore_folder", fo, ["action", "fs"][front % 2]]
+        if k == 12:
+            return ["folder_verb", fo, ["restore", "scan", "repair", "corrupt", "restore"][verb % 5]]
+        if k == 13:
+            return ["file_verb", fo, f, ["scan", "repair", "corrupt", "restore", "checkhash"][verb % 5]]
+        if k == 14:
+            return ["create_folder", fo, ["action", "req"][front % 2]]
+        return ["access", fo, f]
+
+    op = st.tuples(st.integers(0, 15), fi, st.integers(0, 3), st.integers(0, 4)).map(mk)
+    return {"ops": draw(st.lists(op, min_size=4, max_size=max_len))}
+
+
 EXH_ALPHABET = [
     ["create_file", "fa", "x.txt", "action"],
     ["create_file", "fa", "x.txt", "req_false"],
@@ -357,5 +393,6 @@ def worker(ctx: Ctx):
     enum_run(ctx, cases, run_case)
     ctx.extra["exhaustive"] = True
     ctx.extra["exhaustive_domain"] = f"all {len(EXH_ALPHABET)}^{depth} sequences over the 14-symbol alphabet"
-    n = 150 if ctx.tier == "quick" else 2500
+    n = 120 if ctx.tier == "quick" else 2000
     hyp_run(ctx, case_strategy(40), run_case, n)
+    hyp_run(ctx, focused_case(30), run_case, 250 if ctx.tier == "quick" else 4000, sub=1)
